@@ -326,7 +326,7 @@ class IntValue(PrimitiveValue):
             #  use for (signed) wraparound in arithmetic evaluation.
             #  Also when we create IntValues to begin with...  and maybe
             #  more places I forget.
-            return ByteValue(self.data, self.span, self.shrinkable, self.is_char)
+            return ByteValue(self.data & 0xFF, self.span, self.shrinkable, self.is_char)
         elif new_type == DataType.INT:
             # Whenever a ByteValue is implicitly coerced to an IntValue,
             # it should be shrinkable back to byte.
